@@ -267,29 +267,4 @@ theorem getPayloadId_total (oti : Oti) (d : List Nat) (a p : Nat) (h1 : a ≤ p)
 
 end Fti
 
-namespace Alc
-
-theorem parseSct_total (ext : List Nat) (h : 4 ≤ ext.length) : (parseSct ext).isPanic = false := by
-  unfold parseSct
-  rw [if_neg (by omega), idx_ok ext 2 (by omega)]; simp only [Out.bind_ok]
-  split
-  · rfl
-  · rename_i hl
-    split
-    · rfl
-    · rename_i hhi
-      have hhi' : ext[2] / 128 % 2 = 1 := by omega
-      rw [fld_ok _ _ _ (by omega) (by omega)]; simp only [Out.bind_ok]
-      split
-      · rename_i hlo
-        rw [fld_ok _ _ _ (by omega) (by omega)]; simp only [Out.bind_ok]
-        apply Out.isPanic_bind
-        · unfold ntpToSystemTime
-          simp only [Nat.reducePow]
-          have hb1 := beVal_lt (List.take (8 - 4) (List.drop 4 ext))
-          sorry
-        · intro v _; rfl
-      · sorry
-
-end Alc
 end Flute
